@@ -218,11 +218,15 @@ def dataFirst (W : World N V T) (s : Sig N V T) (o : Opts) (excluded : List N) (
 
 /-! ### `field_first_parse` (base.py:512-619), `as_attname=True` -/
 
-/-- base.py:519-527: keys that are case-insensitive names are lower-cased into a new dict -/
+/-- base.py:519-533 (after fix C08-ff-kwargs-key-case): the key a given key is looked up by — lower-cased when that
+is a case-insensitive name -/
+def ffKey (W : World N V T) (fs : List (Param N V T)) (k : N) : N :=
+  if (ciNames W fs).contains (W.lower k) then W.lower k else k
+
+/-- the dict the fields are looked up in -/
 def ffData (W : World N V T) (fs : List (Param N V T)) (data : List (N × V)) : List (N × V) :=
   if (ciNames W fs).isEmpty then data
-  else data.foldl (fun d e =>
-    dictSet d (if (ciNames W fs).contains (W.lower e.1) then W.lower e.1 else e.1) e.2) []
+  else data.foldl (fun d e => dictSet d (ffKey W fs e.1) e.2) []
 
 /-- base.py:542-555: the spellings of one field, in order; two present spellings must carry equal values -/
 def ffScan (o : Opts) (data : List (N × V)) : List N → Option V → Except Err (Option V)
@@ -254,23 +258,23 @@ def ffLoop (W : World N V T) (o : Opts) (excluded : List N) (data : List (N × V
         | .error e => .error e
         | .ok p => ffLoop W o excluded data fs (dictSet r f.name p) (u ++ f.allNames W)
 
+/-- base.py:612-624: the keys no field consumed, under the spelling they were given in -/
 def ffAddition (W : World N V T) (s : Sig N V T) (used : List N) :
     List (N × V) → List (N × V) → Except Err (List (N × V))
   | [], a => .ok a
   | (k, v) :: rest, a =>
-    if used.contains k then ffAddition W s used rest a
+    if used.contains (ffKey W (s.fields W) k) then ffAddition W s used rest a
     else match parseAddition W s k v with
       | .error e => .error e
       | .ok av => ffAddition W s used rest (match av with | some x => dictSet a k x | none => a)
 
 def fieldFirst (W : World N V T) (s : Sig N V T) (o : Opts) (excluded : List N) (data : List (N × V)) :
     Except Err (List (N × V)) :=
-  let data' := ffData W (s.fields W) data
-  match ffLoop W o excluded data' (s.fields W) [] [] with
+  match ffLoop W o excluded (ffData W (s.fields W) data) (s.fields W) [] [] with
   | .error e => .error e
   | .ok (r, u) =>
     if s.vk.isSome then                                            -- `options.addition is not None`
-      match ffAddition W s u data' [] with
+      match ffAddition W s u data [] with
       | .error e => .error e
       | .ok a => .ok (dictUpdate r a)
     else .ok r
